@@ -22,7 +22,7 @@ def run(tier, cmd):
                 explanation='Exhaustive over the abstract (value-independent) state space: the product has a fixpoint of a handful of pairs; '
                             'each cell compares the reported message (channel, MSB controller number, 14-bit value) by bit provenance with the '
                             'reference, including the stale-MSB replacement and the LSB-alone re-report cells. Channel routing is C15.')
-    Fs = load_configs(chk, ['K1'] + (['K2'] if tier == 'thorough' else []), required=('K1',))
+    Fs = load_configs(chk, ['K1', 'K2'], required=('K1',))
     for cfg, F in sorted(Fs.items()):
         r = guarded(chk, '%s/product/%s' % (PID, cfg), 'product with the reference automaton',
                     lambda F=F: scanners.cell_obligations(chk, F, 'cc14', 'product with the reference automaton'))
